@@ -88,6 +88,64 @@ fn marker_of(text: &str) -> String {
     }
 }
 
+/// In a listing (--insert-code) the source line of every statement is written as a comment in
+/// front of its code.  For a line that is exactly one explicit statement - load(..); store(..);
+/// strobe(..); - the code up to the next source line must contain the instruction the statement
+/// stands for: LDA / TXA / TYA, STA / TAX / TAY.  Returns (statements checked, first miss).
+fn listing_oracle(obs: &Obs) -> (u64, Option<String>) {
+    let mut n = 0;
+    for f in &obs.funcs {
+        let text = match &f.text {
+            Some(t) => t,
+            None => continue,
+        };
+        let lines: Vec<&str> = text.lines().collect();
+        let mut i = 0;
+        while i < lines.len() {
+            let l = lines[i].trim();
+            i += 1;
+            let stmt = match l.strip_prefix(";(l.") {
+                Some(rest) => rest.split_once(')').map(|x| x.1.trim()).unwrap_or(""),
+                None => continue,
+            };
+            let want: &[&str] = if stmt.starts_with("load(") && stmt.ends_with(");") && stmt.matches(';').count() == 1 {
+                &["LDA", "TXA", "TYA"]
+            } else if (stmt.starts_with("store(") || stmt.starts_with("strobe(")) && stmt.ends_with(");") && stmt.matches(';').count() == 1 {
+                &["STA", "TAX", "TAY"]
+            } else {
+                continue;
+            };
+            let mut found = false;
+            let mut j = i;
+            while j < lines.len() && !lines[j].trim_start().starts_with(";(l.") {
+                let t = lines[j].trim();
+                if want.iter().any(|m| t.starts_with(m)) {
+                    found = true;
+                    break;
+                }
+                j += 1;
+            }
+            if !found {
+                // the peephole pass may swap a load with the CLC / SEC that follows it (same cycles,
+                // same effect): the load is then the first instruction under the next source line
+                let only_carry = lines[i..j].iter().map(|t| t.trim()).filter(|t| !t.is_empty() && !t.starts_with(';') && !t.starts_with('.')).all(|t| t.starts_with("CLC") || t.starts_with("SEC"));
+                let mut k = j;
+                while k < lines.len() && (lines[k].trim_start().starts_with(';') || lines[k].starts_with('.') || lines[k].trim().is_empty()) {
+                    k += 1;
+                }
+                if only_carry && i < j && k < lines.len() && want.iter().any(|m| lines[k].trim().starts_with(m)) {
+                    found = true;
+                }
+            }
+            n += 1;
+            if !found {
+                return (n, Some(format!("function {}: nothing was emitted for the explicit statement '{}' (expected one of {:?} before the next source line)", f.name, stmt, want)));
+            }
+        }
+    }
+    (n, None)
+}
+
 fn judge_trace(kind: &str, idx: u64, p: &Program, tag: &str) -> CaseResult {
     let src = print_program(p);
     let mut res = CaseResult::new("", crate::util::hash_str(&src));
@@ -103,6 +161,25 @@ fn judge_trace(kind: &str, idx: u64, p: &Program, tag: &str) -> CaseResult {
                 return res;
             }
         };
+        // listing oracle: with --insert-code every statement's source line precedes what was
+        // emitted for it; the instruction of an explicit statement must still be there
+        if lvl <= 1 {
+            let mut ol = Opts::o(lvl);
+            ol.insert_code = true;
+            if let Outcome::Ok(lobs) = compile_src(&src, &ol) {
+                let (n, bad) = listing_oracle(&lobs);
+                res.count("explicit statements found in the listing with their instruction", n);
+                if let Some(w) = bad {
+                    res.class = "an explicit statement was not emitted".into();
+                    res.violate(
+                        &format!("C18:{}:{}", kind, idx),
+                        &format!("C18 -O{} --insert-code: {}\n--- source\n{}", lvl, w, src),
+                        json!({"kind": kind, "idx": idx, "opt": lvl, "why": w, "source": src, "listing": listing(&lobs)}),
+                    );
+                    return res;
+                }
+            }
+        }
         let marks = marker_addrs(&built);
         if built.layout.zp_end > 0xf0 {
             // variables would reach the watched boundary addresses
